@@ -262,12 +262,16 @@ func (c *Ctx) checkExit(ct *Contract) {
 	fr.InEnsures = true
 	defer func() { fr.InEnsures = false }()
 	for i, e := range ct.Ensures {
-		c.useLemmas(e.Using)
-		t := c.evalSpecBool(e.E)
 		label := e.Label
 		if label == "" {
 			label = fmt.Sprintf("%d", i+1)
 		}
+		if e.Assumed != "" {
+			c.E.noteAssumedClause(c.FuncName+"/ensures("+label+")", e.Assumed)
+			continue
+		}
+		c.useLemmas(e.Using)
+		t := c.evalSpecBool(e.E)
 		c.assert("ensures", label, t, e.Src, e.Serves)
 	}
 	// frame: everything outside the modifies set and allocated at entry is unchanged
